@@ -10,7 +10,14 @@ package main
 //   plumbing <workers> <routing> <pmethod> <buckets> <updMs> <maxMs> <depth> <tickMs> <mem> <wl> <rx> <noold> <listhex>
 
 import (
+	"bytes"
+	"compress/gzip"
 	"fmt"
+	"io"
+	"net/http"
+	"net/http/httptest"
+	"sync"
+	"time"
 	"strconv"
 	"strings"
 
@@ -21,6 +28,7 @@ import (
 	"github.com/Nextdoor/pg-bifrost.git/shutdown"
 	"github.com/Nextdoor/pg-bifrost.git/stats"
 	"github.com/Nextdoor/pg-bifrost.git/transport"
+	"github.com/Nextdoor/pg-bifrost.git/transport/batch"
 	"github.com/Nextdoor/pg-bifrost.git/transport/batcher"
 	tkafka "github.com/Nextdoor/pg-bifrost.git/transport/transporters/kafka"
 	tkinesis "github.com/Nextdoor/pg-bifrost.git/transport/transporters/kinesis"
@@ -211,10 +219,121 @@ func plumbingWorkers(w []string) (res string) {
 	return fmt.Sprintf("policies=%d", len(seen))
 }
 
+// plumbing s3put <keyspacehex> <bufmaxreuse> <nbatches>: the S3 sink end to end as its factory builds it - option map →
+// s3.New → the real AWS SDK client → HTTP. A local HTTP server plays S3 (path style, as the factory sets it for a custom
+// endpoint); each batch is two records with first LSN 1000·i. Observed: the bucket and the key prefix of every PUT, the
+// LSN in each file name, and whether each body gunzips to exactly the batch's records, one JSON per line.
+func plumbingS3Put(w []string) (res string) {
+	defer func() {
+		if r := recover(); r != nil {
+			res = fmt.Sprintf("panic %v", r)
+		}
+	}()
+	keySpace := unhexs(w[2])
+	reuse, _ := strconv.Atoi(w[3])
+	n, _ := strconv.Atoi(w[4])
+	type put struct {
+		path string
+		body []byte
+		enc  string
+	}
+	var mu sync.Mutex
+	var puts []put
+	srv := httptest.NewServer(http.HandlerFunc(func(rw http.ResponseWriter, r *http.Request) {
+		b, _ := io.ReadAll(r.Body)
+		if r.Method == "PUT" {
+			mu.Lock()
+			puts = append(puts, put{r.URL.EscapedPath(), b, r.Header.Get("Content-Encoding")})
+			mu.Unlock()
+		}
+		rw.Header().Set("ETag", "\"0\"")
+		rw.WriteHeader(200)
+	}))
+	defer srv.Close()
+	sh := shutdown.NewShutdownHandler()
+	in := make(chan transport.Batch)
+	written := make(chan *ordered_map.OrderedMap, 64)
+	statsChan := make(chan stats.Stat, 4096)
+	ts := ts3.New(sh, written, statsChan, 1, []<-chan transport.Batch{in}, map[string]interface{}{ts3.ConfVarBucketName: "verif-bucket", ts3.ConfVarKeySpace: keySpace,
+		ts3.ConfVarPutBatchSize: 2, ts3.ConfVarAwsRegion: "us-east-1", ts3.ConfVarAwsAccessKeyId: "k", ts3.ConfVarAwsSecretAccessKey: "s", ts3.ConfVarEndpoint: srv.URL,
+		ts3.ConfVarBufMaxRuse: reuse, config.VAR_NAME_WORKERS: 1})
+	done := make(chan struct{})
+	go func() { defer close(done); (*ts[0]).StartTransporting() }()
+	want := [][]byte{}
+	for i := 1; i <= n; i++ {
+		b := batch.NewGenericBatch("", 2)
+		var body []byte
+		for j := 0; j < 2; j++ {
+			js := []byte(fmt.Sprintf("{\"batch\":%d,\"rec\":%d,\"pad\":\"%s\"}", i, j, strings.Repeat("x", (i*7+j*3)%40)))
+			b.Add(&marshaller.MarshalledMessage{Operation: "INSERT", Table: "public.t", Json: js, TimeBasedKey: fmt.Sprintf("%d-1", i), Transaction: strconv.Itoa(i), WalStart: uint64(1000*i + j)})
+			body = append(append(body, js...), '\n')
+		}
+		b.Close()
+		want = append(want, body)
+		select {
+		case in <- b:
+		case <-time.After(5 * time.Second):
+			sh.CancelFunc()
+			return "hang feeding"
+		}
+		select {
+		case <-written:
+		case <-time.After(10 * time.Second):
+			sh.CancelFunc()
+			return fmt.Sprintf("batch %d not reported written", i)
+		}
+	}
+	sh.CancelFunc()
+	close(in)
+	select {
+	case <-done:
+	case <-time.After(3 * time.Second):
+	}
+	mu.Lock()
+	defer mu.Unlock()
+	prefixes := map[string]bool{}
+	lsns := []string{}
+	bodies := "ok"
+	bucket := ""
+	for i, p := range puts {
+		seg := strings.Split(strings.TrimPrefix(p.path, "/"), "/")
+		if len(seg) < 6 {
+			return "bad-key " + p.path
+		}
+		bucket = seg[0]
+		prefixes[strings.Join(seg[1:len(seg)-5], "/")] = true
+		file := seg[len(seg)-1]
+		us := strings.LastIndex(file, "_")
+		if us < 0 || !strings.HasSuffix(file, ".gz") {
+			return "bad-file " + file
+		}
+		lsns = append(lsns, strings.TrimSuffix(file[us+1:], ".gz"))
+		zr, err := gzip.NewReader(bytes.NewReader(p.body))
+		if err != nil {
+			bodies = fmt.Sprintf("put%d-not-gzip", i)
+			continue
+		}
+		plain, err := io.ReadAll(zr)
+		if err != nil || i >= len(want) || !bytes.Equal(plain, want[i]) || p.enc != "gzip" {
+			bodies = fmt.Sprintf("put%d-differs", i)
+		}
+	}
+	pf := []string{}
+	for k := range prefixes {
+		pf = append(pf, hexs(k))
+	}
+	sortStrings(pf)
+	return fmt.Sprintf("bucket=%s prefix=%s puts=%d bodies=%s lsns=%s", hexs(bucket), strings.Join(pf, "|"), len(puts), bodies, strings.Join(lsns, ","))
+}
+
 func plumbingRun(c Case) ([]string, []string) {
 	outs := []string{}
 	for _, l := range c.Lines {
 		w := strings.Fields(l)
+		if len(w) == 5 && w[1] == "s3put" {
+			outs = append(outs, plumbingS3Put(w))
+			continue
+		}
 		if len(w) == 4 && w[1] == "workers" {
 			outs = append(outs, plumbingWorkers(w))
 			continue
@@ -241,6 +360,12 @@ func plumbingGen(r *Rng, tier string) Case {
 	ls := "-"
 	if len(list) > 0 {
 		ls = strings.Join(list, ",")
+	}
+	if r.Chance(12) {
+		// no INNER double slash: the AWS SDK's REST URI cleaning collapses it on the wire ("a//b/…" is stored as "a/b/…"),
+		// which is outside C12 (the key handed to PutObject is judged by the `s3` component) - see DESIGN 10.3
+		ks := Pick(r, []string{"", "a", "data/cdc", "/a/", "//a//", "/", "///", "x-1_y/z", "/deep/er/space/"})
+		return Case{[]string{fmt.Sprintf("plumbing s3put %s %d %d", hexs(ks), r.Range(0, 3), r.Range(1, 6))}}
 	}
 	if r.Chance(15) {
 		return Case{[]string{fmt.Sprintf("plumbing workers %s %d", Pick(r, []string{"kinesis", "s3"}), r.Range(1, 5))}}
@@ -273,6 +398,12 @@ func plumbingMonitor(lines, outs []string, m *Model) []Violation {
 		}
 		if strings.HasPrefix(outs[i], "panic") {
 			vs = append(vs, Violation{"C17", "app.New panics on a configuration main.go accepts: " + l + " => " + outs[i], ""})
+			continue
+		}
+		if strings.HasPrefix(l, "plumbing s3put") {
+			if want != outs[i] {
+				vs = append(vs, Violation{"C12", "the S3 sink as its factory builds it (options → s3.New → AWS SDK → HTTP) does not put one complete, correctly keyed object per written batch: wanted " + want + ", observed " + outs[i] + " (" + l + ")", ""})
+			}
 			continue
 		}
 		if strings.HasPrefix(l, "plumbing workers") {
